@@ -42,7 +42,7 @@ func init() {
 			{Name: "sdiv-loses-its-trap", File: "internal/engine/wazevo/ssa/instructions.go", Old: "\tOpcodeSdiv:                        sideEffectTraps,", New: "\tOpcodeSdiv:                        sideEffectNone,", Rule: "R01.10", Substr: "OpcodeSdiv"},
 			{Name: "merge-keeps-larger-bound", File: "internal/engine/wazevo/frontend/frontend.go", Old: "\t\t\t\t\tif cb.bound < minBound {\n\t\t\t\t\t\tminBound = cb.bound\n\t\t\t\t\t}", New: "\t\t\t\t\tif cb.bound > minBound || minBound == math.MaxUint64 {\n\t\t\t\t\t\tminBound = cb.bound\n\t\t\t\t\t}", Rule: "R01.11", Substr: "minimum"},
 			{Name: "store64-lane-checked-as-4", File: "internal/engine/wazevo/frontend/lower.go", Old: "storeOp, lane, opSize = ssa.OpcodeStore, ssa.VecLaneI64x2, 8", New: "storeOp, lane, opSize = ssa.OpcodeStore, ssa.VecLaneI64x2, 4", Rule: "R01.8", Substr: "OpcodeVecV128Store64Lane"},
-			{Name: "frontend-arm-removed", File: "internal/engine/wazevo/frontend/lower.go", Old: "\tcase wasm.OpcodeI32Rotr:\n", New: "\tcase wasm.OpcodeI64Rotr + 100:\n", Rule: "R01.1", Substr: "wazevo"},
+			{Name: "frontend-arm-removed", File: "internal/engine/wazevo/frontend/lower.go", Old: "\tcase wasm.OpcodeI32Rotr, wasm.OpcodeI64Rotr:\n", New: "\tcase wasm.OpcodeI64Rotr:\n", Rule: "R01.1", Substr: "wazevo"},
 			{Name: "interp-exec-arm-removed", File: "internal/engine/interpreter/interpreter.go", Old: "\t\tcase operationKindSignExtend32From16:\n\t\t\tv := uint32(int16(ce.popValue()))\n\t\t\tce.pushValue(uint64(v))\n\t\t\tframe.pc++\n", New: "", Rule: "R01.2", Substr: "operationKindSignExtend32From16"},
 			{Name: "arm64-ssa-arm-removed", File: "internal/engine/wazevo/backend/isa/arm64/lower_instr.go", Old: "\tcase ssa.OpcodeVbandnot:\n", New: "\tcase ssa.OpcodeVbandnot + 200:\n", Rule: "R01.3", Substr: "OpcodeVbandnot"},
 			{Name: "side-effect-entry-removed", File: "internal/engine/wazevo/ssa/instructions.go", Old: "\tOpcodeSExtend:                     sideEffectNone,\n", New: "", Rule: "R01.3", Substr: "OpcodeSExtend"},
